@@ -245,3 +245,154 @@ def prop_C05(ctx, tier):
     S.check_estimators(run, ctx)
     W.check_memory_store_selected(run, ctx)
     return run
+
+
+def prop_C01(ctx, tier):
+    from . import rules_core as K
+    from . import rules_w as W
+    from . import rules_shape as S
+    run = Run('C01', tier,
+              'W1: in every fixture wrapper the lookup and every store use the same key value, a hit returns the looked-up payload, any other return is the body\'s result, which is also what '
+              'is stored. P1: the three lookups search under the requested key and return a clone of that entry\'s value. P2: every non-oversize store path of the six store functions '
+              'inserts (key, value) - the store overwrites. W2: store statics are owned by the decorated function. Not decided: equality of values over histories.', ASSUME_COMMON)
+    n = W.check_wrapper_dataflow(run, ctx)
+    run.require('C01-W1', 'fixture wrappers', n, 300)
+    n2, anchors = K.check_store_overwrites(run, ctx, 'C01-P2')
+    run.require('C01-P2', 'store entry points', len([a for a in anchors.values() if a]), 6)
+    K.check_lookup_by_key(run, ctx)
+    W.check_wrapper_config(run, ctx, rules=('C14',))
+    run.violations = [v for v in run.violations if not v['rule'].startswith('C14') or 'belongs to' in v['what']]
+    for v in run.violations:
+        if v['rule'].startswith('C14'):
+            v['rule'] = 'C01-W2'
+    return run
+
+
+def prop_C02(ctx, tier):
+    from . import rules_w as W
+    from . import rules_shape as S
+    run = Run('C02', tier,
+              'W1: in every fixture the key is built from exactly one part per parameter (receiver first, in order), each rendered through CacheableKey::to_cache_key (sync) or Debug (async), '
+              'joined with a constant separator. W2: the separator is non-empty and cannot occur unquoted in a Debug rendering. T1: the default key is format!("{:?}", self). '
+              'T2: impl table (informational). Trusted, not checked: injectivity of std Debug.', ASSUME_COMMON)
+    n = W.check_key_builder(run, ctx)
+    run.require('C02-W1', 'fixture wrappers', n, 300)
+    S.check_key_traits(run, ctx)
+    return run
+
+
+def prop_C03(ctx, tier):
+    from . import rules_core as K
+    from . import rules_w as W
+    run = Run('C03', tier,
+              'W1/W2: scenario table per fixture (oracles fix the lookup result and predicate verdicts): a hit returns without running the body or storing; a miss runs the body exactly once '
+              'and, for plain types without cache_if, stores exactly once. E1: with no limit/max_memory/ttl no store removal is reachable from any lookup or store (54 specialisations). '
+              'Not decided: the concurrent-miss clause.', ASSUME_COMMON)
+    n, fams = W.check_wrapper_flow(run, ctx, rules=('C03',))
+    run.require('C03-W1', 'scenario outcomes', n, 600)
+    K.check_lookup_removes_nothing_unbounded(run, ctx)
+    n2, a2 = K.check_store_unbounded(run, ctx)
+    run.require('C03-E1', 'unbounded store specialisations', n2, 36)
+    return run
+
+
+def prop_C09(ctx, tier):
+    from . import rules_w as W
+    from . import rules_shape as S
+    run = Run('C09', tier,
+              'W1: for every fixture whose *resolved* return type is core::result::Result and that has no cache_if, the generated store is insert_result* (sync) or is taken only on the true '
+              'edge of is_ok() (async; scenario table with an is_ok oracle). S1: the four core insert_result* store only in the Ok arm and store Ok(payload.clone()).', ASSUME_COMMON)
+    n, fams = W.check_wrapper_flow(run, ctx, rules=('C09',))
+    run.require('C09-W1', 'Result-family fixtures', fams.get('R', 0), 30)
+    S.check_result_store(run, ctx)
+    return run
+
+
+def prop_C10(ctx, tier):
+    from . import rules_w as W
+    run = Run('C10', tier,
+              'W1: for every fixture with cache_if: the named predicate (resolved callee) is consulted exactly once per body execution and never on a hit, with (key, result); the store happens '
+              'exactly when it returns true; for sync Result functions the guarded store is the Ok-only one. Scenario table over found x keep (x stale).', ASSUME_COMMON)
+    n, fams = W.check_wrapper_flow(run, ctx, rules=('C10',))
+    run.require('C10-W1', 'cache_if fixtures', fams.get('P', 0), 40)
+    W.check_wrapper_dataflow(run, ctx, 'C10-W1')
+    run.violations = [v for v in run.violations if 'cache_if' in v['what'] or v['rule'] != 'C10-W1' or 'predicate' in v['key'] or 'result-with' in v['key']]
+    return run
+
+
+def prop_C11(ctx, tier):
+    from . import rules_w as W
+    from . import rules_core as K
+    run = Run('C11', tier,
+              'W1: for every fixture with invalidate_on: the named check is consulted exactly once per found entry with (key, cached value); the cached value is returned only when it says false; '
+              'when it says true the body runs and the result is stored. P1: the store overwrites the existing key in all three flavours (every store path inserts).', ASSUME_COMMON)
+    n, fams = W.check_wrapper_flow(run, ctx, rules=('C11',))
+    run.require('C11-W1', 'invalidate_on fixtures', fams.get('I', 0), 20)
+    W.check_wrapper_dataflow(run, ctx, 'C11-W1')
+    run.violations = [v for v in run.violations if 'invalidate_on' in v['what'] or 'check' in v['key'] or 'stale' in v['key'] or 'fresh' in v['key'] or 'refresh' in v['key']]
+    K.check_store_overwrites(run, ctx, 'C11-P1')
+    return run
+
+
+def prop_C12(ctx, tier):
+    from . import rules_w as W
+    from . import rules_shape as S
+    run = Run('C12', tier,
+              'S1: register files tags/events/dependencies into their own tables and invalidate_by_* read the same table; Metadata::new keeps argument order. S2: every looked-up clear callback is '
+              'invoked and counted once; invalidate_cache returns true exactly when it ran one. W1: every fixture with group attributes registers (name, Metadata(tags, events, deps)) and the '
+              'clear callback under the name attribute or the function name inside a Once that dominates the lookup. W2: the clear callback empties store and queue of its own function only.',
+              ASSUME_COMMON)
+    S.check_registry_tables(run, ctx)
+    n = W.check_registration(run, ctx, rules=('C12',))
+    run.require('C12-W1', 'global/async fixtures', n, 200)
+    n2 = W.check_callbacks(run, ctx, rules=('C12',))
+    run.require('C12-W2', 'registered callbacks', n2, 300)
+    return run
+
+
+def prop_C13(ctx, tier):
+    from . import rules_w as W
+    from . import rules_shape as S
+    run = Run('C13', tier,
+              'W1: every generated conditional callback collects the store keys for which the key predicate (called once, verdict unchanged) holds and removes exactly those from store and '
+              'queue (position(== key)). W2: callbacks touch only statics of the function they were registered for. S1: invalidate_with routes the predicate to the named callback only; '
+              'invalidate_all_with passes each callback a closure applying the predicate to that cache\'s own name. Later eviction behaviour follows from C04 invariants (not decided here).',
+              ASSUME_COMMON)
+    S.check_registry_routing(run, ctx)
+    n = W.check_callbacks(run, ctx, rules=('C13',))
+    run.require('C13-W1', 'registered callbacks', n, 300)
+    return run
+
+
+def prop_C14(ctx, tier):
+    from . import rules_w as W
+    from . import rules_shape as S
+    run = Run('C14', tier,
+              'T1: ThreadLocalCache can only be built on &\'static LocalKey<RefCell<..>> and GlobalCache on &\'static Lazy<RwLock|Mutex<..>> (field types + compile-fail witnesses with compiling '
+              'twins). W1: in every sync fixture the scope attribute (absent = global) selects the matching branch, which is built on thread_local! keys / process statics owned by the function; '
+              'async stores are process statics. Isolation is then a property of LocalKey, sharing a property of static.', ASSUME_COMMON)
+    S.check_scope_types(run, ctx)
+    from . import gen_witness
+    gen_witness.judge(run, ctx, 'C14-T1')
+    n = W.check_wrapper_config(run, ctx, rules=('C14',))
+    run.require('C14-W1', 'fixture wrappers', n, 300)
+    return run
+
+
+def prop_C19(ctx, tier):
+    from . import rules_w as W
+    from . import gen_witness
+    run = Run('C19', tier,
+              'W1: for every fixture of a corpus generated from the attribute grammar (families + pairwise cover) the constants reaching the cache constructor, the policy variant, the scope branch, '
+              'the store method, the key builder, the registration names and lists and the predicate paths equal the attribute list (KB/MB/GB as powers of 1024); the async policy string table maps '
+              'to the same-named variants. T1: every invalid attribute list of the witness corpus is rejected with the macro\'s own message and its valid twin compiles. '
+              'Not decided: behavioural equivalence beyond configuration identity.', ASSUME_COMMON)
+    n = W.check_wrapper_config(run, ctx, rules=('C19', 'C14'))
+    run.require('C19-W1', 'fixture wrappers', n, 300)
+    W.check_wrapper_flow(run, ctx, rules=('C05',))
+    W.check_key_builder(run, ctx)
+    W.check_registration(run, ctx, rules=('C12', 'C15'))
+    n2 = gen_witness.judge(run, ctx, 'C19-T1')
+    run.require('C19-T1', 'witness cases', n2, 50)
+    run.exhaustive = {'fixtures': ctx.meta.get('fixtures')}
+    return run
